@@ -61,7 +61,11 @@ func (o *OracleC04) AfterBlock(c *Chain, b *BlockCtx) []*Violation {
 			out = append(out, o.v(b.H, "tips-escrow", "credits-exceed-paid-in:"+payoutDiagnosis(v, b.H), "in block %d the credits grew by %s more than the coins that entered the tips escrow (escrow %s, credits %s)", b.H, diff.FloatString(6), esc, credits.FloatString(6)))
 		}
 	} else if slack.Cmp(big.NewRat(-1, 1_000_000_000_000)) < 0 { // sub-unit rounding of 10^-18 per credit is within the statement's tolerance
-		out = append(out, o.v(b.H, "tips-escrow", "escrow-short", "tips escrow holds %s but selectors are credited %s", esc, credits.FloatString(6)))
+		class := "escrow-short"
+		if reporterWithCommissionAboveOne(v) {
+			class += ":commission-rate-outside-0-1"
+		}
+		out = append(out, o.v(b.H, "tips-escrow", class, "tips escrow holds %s but selectors are credited %s", esc, credits.FloatString(6)))
 	}
 	o.prevSlack = slack
 	o.count("escrow_checks")
@@ -74,7 +78,18 @@ func (o *OracleC04) AfterBlock(c *Chain, b *BlockCtx) []*Violation {
 	// dispute account >= liabilities recorded by the ledger
 	liab, detail := o.disputeLiabilities(v)
 	if bal := v.ModuleBalance("dispute"); bal.BigInt().Cmp(liab) < 0 {
-		out = append(out, o.v(b.H, "dispute-account", "dispute-escrow-short", "dispute account holds %s but owes at least %s (%s)", bal, liab, detail))
+		class := "dispute-escrow-short"
+		// diagnosis from inputs: a shortfall of at most one unit per stake origin that was unbonded for a fee or an
+		// escrow is the share->token truncation of the staking module's Unbond
+		short := new(big.Int).Sub(liab, bal.BigInt())
+		if short.Cmp(big.NewInt(int64(o.originCount(v)))) <= 0 {
+			class = "short-by-unbond-truncation-units"
+		} else if sameReportDisputedAgain(v) {
+			class = "dispute-escrow-short:report-already-slashed-by-earlier-dispute"
+		} else if backerMovedStake(c, v) {
+			class = "dispute-escrow-short:backer-moved-stake-since-report"
+		}
+		out = append(out, o.v(b.H, "dispute-account", class, "dispute account holds %s but owes at least %s (%s)", bal, liab, detail))
 	}
 	if liab.Sign() > 0 {
 		o.count("dispute_liability_checks_nonzero")
@@ -145,7 +160,11 @@ func (o *OracleC04) probes(c *Chain, b *BlockCtx, v *View) []*Violation {
 			_, err := ms.WithdrawTip(cctx, &reportertypes.MsgWithdrawTip{SelectorAddress: sdk.AccAddress([]byte(k)).String(), ValidatorAddress: bonded})
 			o.count("probe_withdraw_tip")
 			if insufficient(err) {
-				out = append(out, o.v(b.H, "probe-withdraw-tip", "entitled-claim-fails-for-funds", "selector %s is credited %s but WithdrawTip fails: %v", sdk.AccAddress([]byte(k)), d, err))
+				class := "entitled-claim-fails-for-funds"
+				if reporterWithCommissionAboveOne(v) {
+					class += ":commission-rate-outside-0-1"
+				}
+				out = append(out, o.v(b.H, "probe-withdraw-tip", class, "selector %s is credited %s but WithdrawTip fails: %v", sdk.AccAddress([]byte(k)), d, err))
 				break
 			}
 		}
@@ -203,8 +222,8 @@ func payoutDiagnosis(v *View, h int64) string {
 			if err != nil {
 				continue
 			}
-			if rec.CommissionRate.GT(math.LegacyOneDec()) {
-				return "commission-rate-above-1"
+			if rec.CommissionRate.GT(math.LegacyOneDec()) || rec.CommissionRate.IsNegative() {
+				return "commission-rate-outside-0-1"
 			}
 			if rec.CommissionRate.IsPositive() {
 				snap, err := v.n.App.ReporterKeeper.Report.Get(v.ctx, collJoinReport(a.QueryID, addr, r.BlockNumber))
@@ -223,4 +242,28 @@ func payoutDiagnosis(v *View, h int64) string {
 		}
 	}
 	return class
+}
+
+func (o *OracleC04) originCount(v *View) int {
+	n := 0
+	_ = v.n.App.ReporterKeeper.DisputedDelegationAmounts.Walk(v.ctx, nil, func(k []byte, d reportertypes.DelegationsAmounts) (bool, error) {
+		n += len(d.TokenOrigins)
+		return false, nil
+	})
+	_ = v.n.App.ReporterKeeper.FeePaidFromStake.Walk(v.ctx, nil, func(k []byte, d reportertypes.DelegationsAmounts) (bool, error) {
+		n += len(d.TokenOrigins)
+		return false, nil
+	})
+	return n
+}
+
+// reporterWithCommissionAboveOne: input-level diagnosis — a reporter was created with an accepted commission
+// rate above 1 (the handler accepts up to 100, the payout multiplies by the rate).
+func reporterWithCommissionAboveOne(v *View) bool {
+	for _, r := range v.Reporters() {
+		if r.Rec.CommissionRate.GT(math.LegacyOneDec()) || r.Rec.CommissionRate.IsNegative() {
+			return true
+		}
+	}
+	return false
 }
